@@ -17,9 +17,12 @@ import (
 	"pgregory.net/rapid"
 
 	"verifharness/hx"
+	"verifharness/wire"
 )
 
-func TestMain(m *testing.M) { hx.Main(m) }
+// (the metrics provider of the process - discard, prometheus or statsd_raw by shard - names a
+// timer after every route the tables get, as in a running fabio)
+func TestMain(m *testing.M) { wire.Init(true); hx.Main(m) }
 
 const prefix = "urlprefix-"
 
